@@ -173,6 +173,11 @@ def run(case):
            "coslat": "coslat_eq_weights", "global": "global_scale"}[rel]
     cc = (cc0, f"{cls}|{st}")
     if rel == "shift":
+        if case["mseed"] % 4 == 0 and not np.iscomplexobj(Y.values):
+            # integer-valued data stored with an integer dtype is the same data: centring subtracts the (non-integer) mean
+            X = map_struct(lambda a: (a * 10.0).round().astype(np.int64), X)
+            Y = (Y * 10.0).round().astype(np.int64)
+            cc = (cc[0], cc[1] + "|int-dtype")
         sh = shaped_like_features(X, lambda s: r2.normal(size=s) * 10.0 ** case["log_scale"])
         X2 = map_struct(lambda a, s: a + s, X, sh)
         Y2 = Y + 7.5
